@@ -19,7 +19,9 @@ V = "/verif"
 def main():
     args = sys.argv[1:]
     if "--sync" in args:
-        subprocess.run("mkdir -p /tmp/vt && rsync -a --delete --exclude=_work/baseline-off --exclude=_work/scratch --exclude=.git /verif/ /tmp/vt/verif/", shell=True, check=True)
+        r = subprocess.run("mkdir -p /tmp/vt && rsync -a --delete --exclude=_work/baseline-off --exclude=_work/scratch --exclude=_work/ocamlbuild --exclude=.git /verif/ /tmp/vt/verif/", shell=True)
+        if r.returncode not in (0, 24):     # 24: files vanished while copying (caches being pruned)
+            raise SystemExit("rsync failed: %s" % r.returncode)
         subprocess.run("rm -rf /tmp/vt/repo && mkdir -p /tmp/vt/repo && git -C /repo archive HEAD | tar -x -C /tmp/vt/repo && cd /tmp/vt/repo && git init -q && git add -A >/dev/null && git commit -qm base", shell=True, check=True)
         args.remove("--sync")
         if not args:
